@@ -598,6 +598,50 @@ def bounds(tier):
     return {"max_elements": 3 if tier == "quick" else 4, "stdin_max_elements": 2 if tier == "quick" else 4}
 
 
+def many_test_files(binary, base, rep, n_max):
+    """`ast-grep test` over a project with N rules and N test files, for every N in 1..n_max: every
+    rule test gets exactly one verdict line, the verdict predicted by construction (test i lists its
+    sources correctly unless i % 3 == 0, then valid and invalid are swapped), the summary counts
+    and the exit code agree. The driver fans the test files out to worker threads, so the number of
+    files matters (a handful of files per run never fills more than one chunk per thread)."""
+    def one(n):
+        tree = {"sgconfig.yml": json.dumps({"ruleDirs": ["rules"], "testConfigs": [{"testDir": "tests"}]}) + "\n"}
+        want = {}
+        for i in range(n):
+            rid = "r%02d" % i
+            tree["rules/%s.yml" % rid] = json.dumps({"id": rid, "language": "JavaScript", "rule": {"pattern": "f%d($A)" % i}}) + "\n"
+            good, bad = ["g()"], ["f%d(1)" % i]
+            wrong = i % 3 == 0
+            tree["tests/%s-test.yml" % rid] = json.dumps({"id": rid, "valid": bad if wrong else good, "invalid": good if wrong else bad}) + "\n"
+            want[rid] = "FAIL" if wrong else "PASS"
+        proj = os.path.join(base, "many_tests_%02d" % n)
+        vlib.write_tree(proj, tree)
+        code, out, err = vlib.run_cli(binary, ["test", "--skip-snapshot-tests"], proj, timeout=120)
+        return n, want, code, ANSI.sub("", out.decode("utf-8", "replace")), err
+    judged = 0
+    for n, want, code, text, err in vlib.pmap(one, list(range(1, n_max + 1)), workers=8):
+        crash = vlib.is_crash(code, err)
+        if crash:
+            rep.violation("crash:%s:test" % crash, {"frontend": "test", "test_files": n, "stderr": err.decode("utf-8", "replace")[-300:]})
+            continue
+        got = {}
+        for line in text.splitlines():
+            m = re.match(r"^(PASS|FAIL) (r\d\d)\b", line.strip())
+            if m:
+                got.setdefault(m.group(2), []).append(m.group(1))
+        judged += n
+        for rid, w in sorted(want.items()):
+            g = got.get(rid, [])
+            if g != [w]:
+                kind = "rule-test-without-verdict" if not g else "rule-test-with-several-verdicts" if len(g) > 1 else "verdict-differs"
+                rep.violation("test-verdict:many-files:%s" % kind, {"frontend": "test", "test_files": n, "rule": rid, "expected": w, "reported": g, "stdout_tail": text[-500:]})
+                break
+        any_wrong = any(w == "FAIL" for w in want.values())
+        if (code != 0) != any_wrong:
+            rep.violation("test-verdict:many-files:exit-code-vs-wrong-tests", {"frontend": "test", "test_files": n, "exit": code, "wrong_tests": sum(1 for w in want.values() if w == "FAIL")})
+    return judged
+
+
 def main(argv):
     args = vlib.parse_args(argv)
     rep = vlib.Reporter(PROP, args)
@@ -615,6 +659,7 @@ def main(argv):
     base = vlib.scratch("c09_cli_" + tier)
     ob = explore(binary, helper, base, rsets, texts, stdin_ok, [(r, singles[r["id"]]) for r in POOL])
     stats = judge_all(rep, ob, rsets, texts, tier)
+    many_judged = many_test_files(binary, base, rep, 60 if tier == "thorough" else 40)
     if not rep.count():
         import shutil
         shutil.rmtree(base, ignore_errors=True)
@@ -633,6 +678,7 @@ def main(argv):
         "pairs_judged": stats["pairs"],
         "per_front_end": stats["per_front_end"],
         "test_verdicts_judged": stats["test_verdicts"],
+        "rule_tests_judged_in_many_file_projects": many_judged,
         "test_status_characters_seen": stats["test_status_seen"],
         "github_findings_of_hint_rules_not_judged": stats["github_hint_unjudged"],
         "lsp_pairs_without_publication": stats["lsp_not_published"],
